@@ -93,12 +93,16 @@ impl Instance {
 
 /// Run the real `fri_commit` on the prover's messages; Ok(eval points, final transcript state).
 pub fn real_commit(p: &Params, roots: &[Felt], last: &[Felt], init: Felt) -> Result<(Vec<Felt>, Felt, Felt), panics::PanicInfo> {
+    real_commit_full(p, roots, last, init).map(|(c, d, k)| (c.eval_points, d, k))
+}
+/// ... and the whole commitment `fri_commit` returns (what `fri_verify` is given in the verifier).
+pub fn real_commit_full(p: &Params, roots: &[Felt], last: &[Felt], init: Felt) -> Result<(FriCommitment, Felt, Felt), panics::PanicInfo> {
     let cfg = fri_config(p);
     let un = FriUnsent { inner_layers: roots.to_vec(), last_layer_coefficients: last.to_vec() };
     panics::catch(move || {
         let mut t = Transcript::new(init);
         let c = fri_commit(&mut t, un, cfg);
-        (c.eval_points, *t.digest(), *t.counter())
+        (c, *t.digest(), *t.counter())
     })
 }
 
@@ -257,9 +261,15 @@ pub fn commit_checked(ctx: &Ctx, variant: Variant, s: &Spec, extra_degree: usize
     let init = seed_digest(ctx, s.seed);
     let mut sp = Sponge::new(init);
     let prover = Prover::commit(&s.params, variant, &poly, &mut sp);
-    let bad = match real_commit(&s.params, &prover.commitments(), &prover.last_layer(), init) {
-        Ok((eps, d, c)) => {
-            if eps != prover.eval_points {
+    let bad = match real_commit_full(&s.params, &prover.commitments(), &prover.last_layer(), init) {
+        Ok((full, d, c)) => {
+            let eps = full.eval_points.clone();
+            // the commitment handed on to fri_verify must be exactly the messages received
+            let expect = Instance { params: s.params.clone(), queries: vec![], values: vec![], points: vec![], roots: prover.commitments(),
+                eval_points: prover.eval_points.clone(), last: prover.last_layer(), leaves: vec![], auths: vec![] }.commitment();
+            if serde_json::to_value(&full).ok() != serde_json::to_value(&expect).ok() {
+                Some("the commitment returned by fri_commit is not the configuration + layer commitments + last-layer coefficients it was given".to_string())
+            } else if eps != prover.eval_points {
                 Some("fri_commit's evaluation points differ from the reference sponge's".to_string())
             } else if d != sp.digest || c != fu(sp.counter) {
                 Some("transcript state after fri_commit differs from the reference sponge's".to_string())
